@@ -58,7 +58,7 @@ def gen_branch(rng, force_kind=None):
     return {'kind': 'userfn', 'layers': layers[:rng.randint(1, len(layers))], 'fn': rng.choice([0, 0, 1, 2])}
 
 
-def gen_desc(rng, nblocks=None, nbranches=None, twice=None, tail=None, diffres=False, small=False):
+def gen_desc(rng, nblocks=None, nbranches=None, twice=None, tail=None, diffres=False, small=False, fixed_twice=None):
     """small: <= 3 blocks x <= 4 branches (exhaustive winner enumeration); otherwise up to 12 branches."""
     nb = nblocks or rng.randint(1, 3)
     blocks = []
@@ -94,6 +94,19 @@ def gen_desc(rng, nblocks=None, nbranches=None, twice=None, tail=None, diffres=F
             chain.append(['fixed', _rand_layer(rng)])
         elif r < 0.6:
             chain.append(['fn', rng.choice([0, 1, 2])])
+    # a FIXED layer (outside the choice blocks) invoked twice in forward: ['fixedref', position of its first use]; with
+    # fixed_twice='diffres' a MaxPool2d(2) sits before the second invocation (weight-shared layer on two resolutions).
+    # It is appended after all the blocks, so no choice block is re-invoked at another resolution because of it.
+    ft = fixed_twice if fixed_twice is not None else rng.choice([None, None, None, 'same', 'diffres'])
+    cands = [p for p, it in enumerate(chain) if it[0] == 'fixed' and it[1] in ('conv1', 'conv3', 'conv3nb', 'dw', 'bn', 'relu', 'maxpool')]
+    convs = [p for p in cands if chain[p][1] in ('conv1', 'conv3', 'conv3nb', 'dw')]
+    if ft and not convs:
+        chain.insert(0, ['fixed', rng.choice(['conv3', 'conv1', 'dw'])])
+        convs = [0]
+    if ft:
+        if ft == 'diffres':
+            chain.append(['fixed', 'pool2'])
+        chain.append(['fixedref', rng.choice(convs)])
     tl = tail if tail is not None else (rng.random() < 0.4)
     if tl:
         chain.append(['fixed', 'flatten'])
@@ -147,6 +160,8 @@ def finish_desc(d):
     for pos, it in enumerate(d['chain']):
         if it[0] == 'fixed':
             ir.append(('fixed', ('M', ir_fixed[pos])))
+        elif it[0] == 'fixedref':
+            ir.append(('fixed', ('M', ir_fixed[it[1]])))
         elif it[0] == 'fn':
             ir.append(('fixed', ('F', it[1])))
         else:
@@ -364,6 +379,8 @@ def build(d, torch):
             for pos, it in enumerate(self.chain):
                 if it[0] == 'fixed':
                     x = self.fx['p%d' % pos](x)
+                elif it[0] == 'fixedref':
+                    x = self.fx['p%d' % it[1]](x)
                 elif it[0] == 'fn':
                     x = apply_fn(it[1], x)
                 else:
